@@ -10,8 +10,11 @@ not one of the registered checks. Scratch trees are removed at the end.
 import json, os, re, shutil, subprocess, sys, glob, threading, time
 
 K = int(sys.argv[1]) if len(sys.argv) > 1 else 3
-FILT = re.compile(sys.argv[2]) if len(sys.argv) > 2 else None
-RS = "/tmp/rs"
+# second argument: a regex over the seed names, or `@file`: a jobs file with lines
+#   <name> <patch file> <check id> [<check id> ...]     (every named check is run; scratch root /tmp/rs2)
+JOBSFILE = sys.argv[2][1:] if len(sys.argv) > 2 and sys.argv[2].startswith("@") else None
+FILT = re.compile(sys.argv[2]) if len(sys.argv) > 2 and not JOBSFILE else None
+RS = "/tmp/rs2" if JOBSFILE else "/tmp/rs"
 
 
 def sh(cmd, cwd=None, env=None, timeout=3600):
@@ -43,7 +46,7 @@ def setup(k):
 
 def env_for(root):
     return dict(os.environ, CARGO_NET_OFFLINE="true", JBKV_VERIF_DIR=f"{root}/verif", JBKV_QUIET_PANICS="1",
-                JBKV_SCRATCH=f"/dev/shm/rs-{os.path.basename(root)}", VERIF_SEED="1")
+                JBKV_SCRATCH=f"/dev/shm/rs-{os.path.basename(RS)}-{os.path.basename(root)}", VERIF_SEED="1")
 
 
 def worker(k, jobs, lock, results):
@@ -54,9 +57,11 @@ def worker(k, jobs, lock, results):
             if not jobs:
                 break
             name, cid = jobs.pop(0)
-        d = f"/verif/seeded/{name}"
+        patch = f"/verif/seeded/{name}/patch.diff"
+        if JOBSFILE:
+            name, patch = name
         sh(f"git -C {root}/repo checkout -q -- .")
-        rc, out = sh(f"git -C {root}/repo apply {d}/patch.diff")
+        rc, out = sh(f"git -C {root}/repo apply {patch}")
         if rc != 0:
             line = f"{name}: PATCH-DOES-NOT-APPLY"
         else:
@@ -82,13 +87,18 @@ def worker(k, jobs, lock, results):
     sh(f"git -C {root}/repo checkout -q -- .")
     sh(f"git -C /repo worktree remove --force {root}/repo")
     shutil.rmtree(root, ignore_errors=True)
-    shutil.rmtree(f"/dev/shm/rs-{k}", ignore_errors=True)
+    shutil.rmtree(f"/dev/shm/rs-{os.path.basename(RS)}-{k}", ignore_errors=True)
 
 
 def main():
     os.makedirs(RS, exist_ok=True)
     jobs = []
-    for d in sorted(glob.glob("/verif/seeded/*/")):
+    if JOBSFILE:
+        for l in open(JOBSFILE):
+            w = l.split()
+            for cid in w[2:]:
+                jobs.append(((w[0], w[1]), cid))
+    for d in sorted(glob.glob("/verif/seeded/*/")) if not JOBSFILE else []:
         name = os.path.basename(d.rstrip("/"))
         if FILT and not FILT.search(name):
             continue
